@@ -261,7 +261,13 @@ def attribute(case, o, kind, sym, parser_y):
         if len(o.sites) > 1:
             desc.append("allocated in " + " <- ".join(describe(sym.resolve(o.sites[0][1]))[:4]))
         m = re.match(r"reject pos=\d+ (\S+)", o.monitor or "")
-        return "%s:%s:%s" % (m.group(1) if m else kind, oc, frames[0][0]), desc
+        name = frames[0][0]
+        src, line = short_loc(frames[0][1])
+        if name == "yyparse" and src.endswith("parser.y"):
+            nt = nonterminal_at(parser_y, line)
+            if nt:
+                name = "parser-action:" + nt
+        return "%s:%s:%s" % (m.group(1) if m else kind, oc, name), desc
     blk, addrs, _ = max(o.sites, key=lambda s: s[2])
     frames = sym.resolve(addrs)
     fn = frames[0][0]
@@ -449,7 +455,7 @@ def run(ctx):
 def _run(ctx, drv, mon, workdir, t0):
     rng = random.Random(ctx.seed * 1000003 + 16)
     thorough = ctx.tier == "thorough"
-    scale = 6.0 if thorough else 1.0
+    scale = 12.0 if thorough else 1.0
     if ctx.broken:
         scale *= 2
     timeout = 20 if thorough else 6
